@@ -1046,6 +1046,9 @@ def emit_dec(sh, prop="C04", bad=None, frontend="poll", extra_checks=True):
     lines += ["    " + d for d in b.draws]
     lines += ["    " + d for d in b.pre]
     for a in b.assumes:
+        # the ASCII restriction of filter content is lifted for the region whose UTF-8 validity is the subject
+        if bad is not None and bad[0] == "utf8" and bad[1] < len(b.utf8) and a == "ascii(&%s)" % b.utf8[bad[1]]:
+            continue
         lines.append("    vassume!(%s);" % a)
     lines.append("    let body: [u8; %d] = [%s];" % (BL, ", ".join(b.cells)))
     cls = {"utf8": "usize::MAX", "name": "usize::MAX", "filter": "usize::MAX"}
@@ -1108,9 +1111,11 @@ def emit_dec(sh, prop="C04", bad=None, frontend="poll", extra_checks=True):
         others = " && ".join("c%d" % j for j in range(len(b.cons)) if j != i) or "true"
         lines.append('            if !c%d && %s {' % (i, others))
         lines.append('                vassert!(matches!(&e, %s), "C20|error.%s|wrong error variant for malformation: %s");' % (err_pat(fam, err), key, key))
-        if can_fail(i):
+        if can_fail(i) and bad is None:
             lines.append('                vcover!(true, "rejected: %s");' % key)
         lines.append("            }")
+        if can_fail(i) and bad is not None:
+            lines.append('            vcover!(!c%d, "rejected: %s");' % (i, key))
     lines.append("            done(e);")
     lines.append("        }")
     lines.append("    }")
